@@ -15,7 +15,7 @@ import (
 type servers struct {
 	srv   *httptest.Server
 	jwks  []byte
-	calls struct{ jwks, introspect, identity, metadata atomic.Int64 }
+	calls struct{ jwks, introspect, introspectTenant, identity, metadata atomic.Int64 }
 }
 
 const farFuture = 4102444800 // 2100-01-01
@@ -26,7 +26,9 @@ func newServers(jwks []byte) *servers {
 	mux := http.NewServeMux()
 	mux.HandleFunc("/jwks/", s.handleJWKS)
 	mux.HandleFunc("/meta/", s.handleMetadata)
+	mux.HandleFunc("/jwks", s.handleJWKS)
 	mux.HandleFunc("/introspect", s.handleIntrospect)
+	mux.HandleFunc("/introspect/", s.handleIntrospect)
 	mux.HandleFunc("/identity", s.handleIdentity)
 	s.srv = httptest.NewServer(mux)
 	return s
@@ -59,7 +61,12 @@ func garbage(w http.ResponseWriter) {
 
 func (s *servers) handleJWKS(w http.ResponseWriter, r *http.Request) {
 	s.calls.jwks.Add(1)
-	switch strings.TrimPrefix(r.URL.Path, "/jwks/") {
+	// the tenant (issuer) is named by the path or, for /jwks, by the X-Tenant header
+	tenant := strings.TrimPrefix(r.URL.Path, "/jwks/")
+	if r.URL.Path == "/jwks" {
+		tenant = r.Header.Get("X-Tenant")
+	}
+	switch tenant {
 	case iss500:
 		w.WriteHeader(http.StatusInternalServerError)
 	case issGarbage:
@@ -106,6 +113,19 @@ func failing(w http.ResponseWriter, class string) bool {
 
 func (s *servers) handleIntrospect(w http.ResponseWriter, r *http.Request) {
 	s.calls.introspect.Add(1)
+	// one introspection endpoint per tenant, named by the path (/introspect/<issuer>) or by the X-Tenant header: only
+	// the issuer of the installation has one
+	tenant, named := strings.CutPrefix(r.URL.Path, "/introspect/")
+	if h, ok := r.Header["X-Tenant"]; ok && !named {
+		tenant, named = strings.Join(h, ","), true
+	}
+	if named {
+		s.calls.introspectTenant.Add(1)
+		if tenant != issOK {
+			w.WriteHeader(http.StatusNotFound)
+			return
+		}
+	}
 	body, _ := io.ReadAll(r.Body)
 	form, _ := url.ParseQuery(string(body))
 	tok := form.Get("token")
